@@ -515,6 +515,11 @@ func runConcOnce(c ConcCase) (pbt.Outcome, error) {
 	for _, n := range c.Incs {
 		total += int64(n)
 	}
+	type keptSnap struct {
+		snap  tally.Snapshot
+		first map[string]int64
+	}
+	var kept []keptSnap
 	var wg sync.WaitGroup
 	for wi := 0; wi < c.Writers; wi++ {
 		wg.Add(1)
@@ -537,6 +542,13 @@ func runConcOnce(c ConcCase) (pbt.Outcome, error) {
 			defer wg.Done()
 			<-start
 			snap := ts.Snapshot()
+			first := map[string]int64{}
+			for k, e := range snap.Counters() {
+				first[k] = e.Value()
+			}
+			mu.Lock()
+			kept = append(kept, keptSnap{snap, first})
+			mu.Unlock()
 			for _, e := range snap.Counters() {
 				if e.Name() == "p.c" {
 					w := int64(0)
@@ -604,6 +616,74 @@ func runConcOnce(c ConcCase) (pbt.Outcome, error) {
 		if hs != int64(writers*len(c.Incs)) {
 			errs.Addf("final snapshot: histogram p.h of scope w=%d holds %d samples, recorded %d", w, hs, writers*len(c.Incs))
 		}
+		// per bucket (bounds 10, 20, +max), the gauge (one of the values written) and the counters of
+		// the three subscopes
+		wantB := map[float64]int64{}
+		for _, n := range c.Incs {
+			switch {
+			case n <= 10:
+				wantB[10] += int64(writers)
+			case n <= 20:
+				wantB[20] += int64(writers)
+			default:
+				wantB[math.MaxFloat64] += int64(writers)
+			}
+		}
+		for _, e := range snap.Histograms() {
+			if e.Name() == "p.h" && e.Tags()["w"] == fmt.Sprint(w) {
+				for up, n := range e.Values() {
+					if n != wantB[up] {
+						errs.Addf("final snapshot: histogram p.h of scope w=%d has %d samples in the bucket <=%v, recorded %d", w, n, up, wantB[up])
+					}
+				}
+				if len(e.Values()) != 3 {
+					errs.Addf("final snapshot: histogram p.h of scope w=%d has %d buckets %v, created with bounds 10, 20", w, len(e.Values()), e.Values())
+				}
+			}
+		}
+		gOK := false
+		for _, e := range snap.Gauges() {
+			if e.Name() == "p.g" && e.Tags()["w"] == fmt.Sprint(w) {
+				for _, n := range c.Incs {
+					if e.Value() == float64(n) {
+						gOK = true
+					}
+				}
+				if !gOK {
+					errs.Addf("final snapshot: gauge p.g of scope w=%d is %v, the values written are %v", w, e.Value(), c.Incs)
+				}
+			}
+		}
+		if !gOK {
+			errs.Addf("final snapshot: gauge p.g of scope w=%d is missing or holds a value nobody wrote", w)
+		}
+		wantS := map[string]int64{}
+		for _, n := range c.Incs {
+			wantS[fmt.Sprintf("p.s%d.c", n%3)] += int64(writers)
+		}
+		for _, e := range snap.Counters() {
+			if want, ok := wantS[e.Name()]; ok && e.Tags()["w"] == fmt.Sprint(w) {
+				if e.Value() != want {
+					errs.Addf("final snapshot: counter %s of scope w=%d is %d, recorded %d", e.Name(), w, e.Value(), want)
+				}
+				delete(wantS, e.Name())
+			}
+		}
+		for name, want := range wantS {
+			errs.Addf("final snapshot: counter %s of scope w=%d (recorded %d) is missing", name, w, want)
+		}
+	}
+	// a snapshot is an independent copy: what was read from it while the writers ran is what it
+	// shows now that they are done
+	for i, k := range kept {
+		for key, e := range k.snap.Counters() {
+			if e.Value() != k.first[key] {
+				errs.Addf("snapshot %d taken during the run showed %d for %s then and shows %d now", i, k.first[key], key, e.Value())
+			}
+		}
+		if len(k.snap.Counters()) != len(k.first) {
+			errs.Addf("snapshot %d taken during the run had %d counters then and has %d now", i, len(k.first), len(k.snap.Counters()))
+		}
 	}
 	return pbt.Outcome{NonTrivial: c.Writers >= 2, Classes: []string{fmt.Sprintf("writers=%d", c.Writers)}}, errs.Err()
 }
@@ -611,7 +691,7 @@ func runConcOnce(c ConcCase) (pbt.Outcome, error) {
 func TestConcurrent(t *testing.T) {
 	pbt.Main(t, pbt.Prop[ConcCase]{
 		ID: "C11", Name: "concurrent",
-		Rule: "free-running mode (real parallelism, -race): 1..6 writer goroutines record on all metric kinds in tagged and sub scopes of one test scope while 1..6 goroutines take snapshots; every concurrently observed counter value lies between 0 and the final total, the final snapshot shows the exact total; the final snapshot also holds every timer value (with multiplicity) and every histogram sample; the scenario is repeated on 1/20/100 fresh scopes with the goroutines released together; race detector on. Non-trivial: >=2 writers.",
+		Rule: "free-running mode (real parallelism, -race): 1..6 writer goroutines record on all metric kinds in tagged and sub scopes of one test scope while 1..6 goroutines take snapshots; every concurrently observed counter value lies between 0 and the final total, the final snapshot shows the exact total; the final snapshot also holds every timer value (with multiplicity), every histogram sample in its bucket, for every gauge one of the values written and the exact subscope counters, and the snapshots taken during the run still show what was read from them then; the scenario is repeated on 1/20/100 fresh scopes with the goroutines released together; race detector on. Non-trivial: >=2 writers.",
 		Gen:  genConc, Run: runConc, Retries: 60, HangAfter: 120 * time.Second,
 	})
 }
